@@ -42,6 +42,10 @@ CLAIMED = {
              text="The ghost count ranges over 2^40 values so the 2^31 fold of the internal counter is inside the single query; the 256 slots carry index-tagged contents and the new message symbolic contents, so which slot every mlog_get_line(k) returns is decided for every int k. Inductive over histories. mlog_dump is only decided for logs of up to 4 messages (thorough tier) - see DESIGN.md.",
              note="Trusted: cbmc 6.11 with the simplifier off (a simplifier bug affects exactly mlog's access pattern; reproducer in DESIGN.md), minisat, the fold rule in harness/c20.c; strdup_printf/fprintf are capture stubs.",
              ref="C20"),
+ "C11": dict(technique="bounded symbolic execution of bintree.c (cbmc, SAT) over SYMBOLIC tree shapes: iterator output vs the recursive traversal, link restoration, and bintree_free with free() as deallocator so cbmc's deallocated-object check is the use-after-free oracle",
+             text="Child indices are solver variables constrained to form a tree, so one query covers every shape up to the node bound (quick 3, thorough 4-5); iterator sequences must equal the recursive traversal of the same file, every link must be restored, and bintree_free/free_left/free_right on heap nodes must free children before parents exactly once without touching freed memory.",
+             note="Trusted: cbmc 6.11 + minisat incl. its pointer-tagging and heap model; recursive traversals as order oracle; malloc assumed to succeed.",
+             ref="C11"),
 }
 NA = {}
 
